@@ -97,6 +97,20 @@ def check_segmentation(ctx, rid_split, rid_pred):
                 ctx.ok(rid_split, f"convert_to_segmented(keep_sp={keep_sp}) is idempotent (a converted basis is returned with the very same shells)", f"{cs.module.relpath}:{cs.lineno}", sample=False)
             else:
                 ctx.violate(rid_split, f"convert_to_segmented(keep_sp={keep_sp}) changes an already converted basis", cs, cs.node, construct=f"segmentation idempotence keep_sp={keep_sp}")
+        # a second call in the same process, after the basis object was edited in place (the result depends on the
+        # argument as it is now, not on what an earlier call saw)
+        e_hist = ev(cs.module)
+        src = _basis(prog, shell_cls, basis_cls)
+        e_hist.run_free(cs, [src], {"keep_sp": False})
+        src.fields["shells"] = list(reversed(src.fields["shells"][:2]))
+        src.fields["conventions"] = {"edited": True}
+        second = e_hist.run_free(cs, [src], {"keep_sp": False})
+        fresh_ = ev(cs.module).run_free(cs, [src], {"keep_sp": False})
+        sig = lambda b: [(sh.fields.get("icenter"), [int(x) for x in np.asarray(sh.fields.get("angmoms")).ravel()], list(sh.fields.get("kinds"))) for sh in b.fields["shells"]] if isinstance(b, Rec) else None
+        if sig(second) == sig(fresh_) and second.fields.get("conventions") is src.fields["conventions"] and all(same(a.fields["coeffs"], b.fields["coeffs"]) for a, b in zip(second.fields["shells"], fresh_.fields["shells"])):
+            ctx.ok(rid_split, "convert_to_segmented: a second call after the basis was edited in place (shells replaced, conventions reassigned) gives the result for the edited basis", f"{cs.module.relpath}:{cs.lineno}", sample=False)
+        else:
+            ctx.violate(rid_split, f"convert_to_segmented called again on the same basis object after its shells / conventions were edited in place returns {len(second.fields['shells']) if isinstance(second, Rec) else second!r} shells with the earlier conventions: the result of the first call is remembered (the overlap matrix and every writer work on a stale basis)", cs, cs.node, construct="segmentation: stale result after in-place edit")
         # prepare_segmented: nothing to do <=> every shell is kept by convert_to_segmented
         nbad = 0
         for keep_sp in (False, True):
